@@ -24,35 +24,51 @@ from harness.common.vmachine import VMachine, BootError
 ID = "C13"
 LEAN_MODULES = ["MpfVerif.Props.C13"]
 PROPS_FILE = "MpfVerif/Props/C13.lean"
-GEN = []
+
+
+def _gen_delay_ops():
+    from translate import delays_gen
+    return delays_gen.generate()
+
+
+GEN = [_gen_delay_ops]
 MANIFEST = {
-  "text": "Proof on a Lean model of DelayManager (dict of named delays + the set of live loop handles, kept separately) and PeriodicTask, with callbacks as arbitrary programs that re-add/remove/run_now/clear on the same manager and the event loop's choice among due timers left open: for every program table and every sequence of add/add_if_doesnt_exist/reset/remove/clear/run_now/check calls, time steps and timer firings, a handle fires only at exactly its due tick with the callback and argument it was scheduled with, at most once, never after it was cancelled (remove, replace under the same name, clear, run_now), every scheduled handle is fired, cancelled or still pending and never overdue; the dict and the live handles stay coupled (so check() is truthful and run_now calls the stored callback with the stored argument and cancels the handle); the n-th tick of a periodic task is at t0 + n*interval exactly and no tick follows cancel. A second Lean model covers the Timer device (running, count, tick interval, system timer, pending timed pause; start/stop/pause/add/subtract/jump/reset/restart/set_ and change_tick_interval, clock runs and pause end): in every reachable state a tick event is posted only by a running timer with its current count not at the end value and a stopped or untimed-paused timer stays silent while only time passes, clock ticks are exactly one interval after the timer was armed or last ticked, complete is posted exactly when a count change reaches the end value (then the timer is stopped, or restarted from its start value with restart_on_complete), a timed pause resumes exactly once at now+ms unless stop cancels it. Both models are tied to delays.py/clock.py/timer.py by correspondence runs on real machines (fresh, machine-wide and mode-owned DelayManager, real PeriodicTask, real Timer in a mode driven through control events) every check; mode stop is checked by the implementation oracle only.",
-  "note": "Trusted: Lean kernel + {propext, Quot.sound, Classical.choice}; hand-written Model/Delay.lean validated by differential runs; asyncio's timer heap and mpf.tests TimeTravelLoop (time cannot pass a due live handle: built into the model's `to` step); times on a 1/8 s grid (floats exact). Mode.stop is covered by the executable oracle, not by theorems. Timer operations are issued through control events (template values) listed with the value-less actions first.",
-  "technique": "Lean 4 invariants over all op sequences/schedules (induction over the op list, fuel-bounded agenda for callback programs) on two hand models (delays/periodic tasks, Timer device) + differential correspondence with the real DelayManager/PeriodicTask/Timer + executable oracles (timeline reference for timers, mode stop)",
-  "translated": False,
+  "text": "Proof on a Lean model of DelayManager (dict of named delays + the set of live loop handles, kept separately) and PeriodicTask, with callbacks as arbitrary programs that re-add/remove/run_now/clear on the same manager (also their own name), start/cancel/replace periodic tasks, RAISE (KeyError or anything else) and BLOCK the loop for any time, and the event loop's choice among due timers left open. The model's commands are tied to the source by translation: mpf/core/delays.py add / remove / add_if_doesnt_exist / check / reset / clear / run_now / _process_delay_callback are regenerated on every run as data for a fixed interpreter (self.delays as interpreter state, clock.schedule_once/unschedule, uuid4 and the callback call as logged effects) and delay_ops_refine_source proves that folding the calls of the TRANSLATED method gives exactly the hand model's step (same dict, same live handles and due times, same handles scheduled/cancelled in order, same callbacks called with the same kwargs) for every name, callback, kwargs and every ms that is an int or a float of any sign (a negative delay is due at once), named or anonymous (uuid4); run_now swallows exactly KeyError, _process_delay_callback passes every exception on after dropping the entry. Proved for every program table and every sequence of calls, time steps and timer firings: a handle never fires before its due tick, fires at exactly that tick when nothing blocked the loop and late by at most the time the loop has been blocked since it was last idle (the loop cannot sleep past anything due; a late delivery shifts no other deadline), with the callback and argument it was scheduled with, at most once, never after it was cancelled (remove, replace under the same name, clear, run_now); every scheduled handle is fired, cancelled or still pending; the dict and the live handles stay coupled (check() truthful, run_now calls the stored callback with the stored argument and cancels the handle); the n-th tick of a periodic task (any interval incl. 0) is never before t0 + n*interval, exactly there when nothing blocked the loop, the next tick is always due at t0 + (count+1)*interval whatever the lateness (no drift, missed ticks delivered back to back, the loop cannot sleep before the count caught up), no tick after cancel. A second Lean model covers the Timer device (running, count, tick interval, system timer, pending timed pause; start/stop/pause/add/subtract/jump/reset/restart/set_ and change_tick_interval, max_value, both directions incl. a start value already past the end value, restart_on_complete, clock runs and pause end): tick only by a running timer not at its end value, clock ticks exactly one interval apart, complete exactly when a count change reaches the end value, a timed pause resumes exactly once. Both models are tied to delays.py/clock.py/timer.py by correspondence runs on real machines every check (fresh, machine-wide and mode-owned DelayManager, real PeriodicTask, real Timer in a mode driven through control events); mode stop and late deliveries to a Timer device (stalled loop) are checked by the implementation oracle only.",
+  "note": "Trusted: Lean kernel + {propext, Quot.sound, Classical.choice}; translate/py2effd.py (Python ast -> DSt/DTop data; rejects a dict access after a callback call, so running a called callback after the method - the model's flattened agenda - is the same as inside) and the interpreter Model/PyEffD.lean (~200 lines, on top of PyEff/PyExec) giving that data Python's meaning; Model/DelayGen.lean applyEff (what clock.schedule_once/unschedule mean for the loop's handles: unschedule of a dead handle is a no-op, a negative timeout is due now); the refinement assumes the invariant Inv (proved for all reachable states), a clock that does not raise and returns the next handle; asyncio's timer heap and mpf.tests TimeTravelLoop made monotonic by the harness (its clock would otherwise run backwards for a timer in the past); time cannot pass a due live handle except while a callback blocks (built into the model's `to` / `block` steps); times on a 1/8 s grid (floats exact; float ms only whole ticks). PeriodicTask and schedule_interval are hand-modelled (clock.py is not translated). Timer operations are issued through control events listed with the value-less actions first.",
+  "technique": "translator (Python ast -> deep-embedded Lean programs with dict state, try/except, effects that may raise) + refinement proof hand model = translated source, re-checked against the current source; Lean 4 invariants over all op sequences/schedules/lateness (induction over the op list, fuel-bounded agenda with exception unwinding for callback programs) on two hand models (delays/periodic tasks, Timer device) + differential correspondence with the real DelayManager/PeriodicTask/Timer + executable oracles (lateness only while blocked, timeline reference for timers, mode stop)",
+  "translated": True,
 }
 RULE = ("cases: (a) 6-30 ops over 4 names (+ anonymous uuid names), 4 callbacks with generated programs of 0-3 commands "
-        "(add/add_if/reset/remove/clear/run_now/check/pcancel), delays from {0,1,1,2,2,3,4,8} ticks, advances from "
-        "{0,1,1,1,2,3,5} ticks, up to 2 periodic tasks (interval 1-3 ticks) - on a fresh, the machine-wide or a mode-owned "
-        "DelayManager, the mode stream with one mode stop whose mode_<n>_stopping handler issues commands; (b) Timer "
-        "devices (up/down, end/max value, restart_on_complete, tick interval 1-3 ticks) driven by 5-25 control calls. "
-        "non-trivial = at least one timer firing and at least one cancel/replace/run_now or a command issued from inside "
-        "a callback (timer stream: at least one tick and one control call after start); distinct = canonical JSON")
+        "(add/add_if/reset/remove/clear/run_now/check/pcancel, biased to the callback's own name; raise KeyError/other; block the "
+        "loop 1-5 ticks; prestart = cancel a running periodic task and start a new one from inside a tick), delays from "
+        "{-2,-1,0,0,1,1,2,2,3,4,8} ticks at top level (zero/negative inside programs only towards a lower callback index), 15% passed "
+        "as float, advances from {0,1,1,1,2,3,5} ticks, top-level blocks, up to 2 periodic tasks (interval 1-3 ticks; 12% of the "
+        "cases an interval-0 task whose callback cancels it) - on a fresh, the machine-wide or a mode-owned DelayManager, the mode "
+        "stream with one mode stop whose mode_<n>_stopping handler issues commands; (b) Timer devices (up/down, end/max value, "
+        "start value inside or already past the end value, restart_on_complete, tick interval 1-3 ticks) driven by 5-25 control "
+        "calls incl. set/change_tick_interval (x2, x3), 25% of the cases with loop stalls of 1-5 ticks. non-trivial = at least one "
+        "timer firing and at least one cancel/replace/run_now or a command issued from inside a callback (timer stream: at least "
+        "one tick and one control call after start); distinct = canonical JSON")
 TRUSTED = [
-    "modelled, not verified: asyncio timer heap / TimeTravelLoop (a due live handle runs before time passes it; same-instant "
-    "order taken from the implementation and validated by the model), functools.partial, dict insertion order",
-    "Model/Delay.lean is hand-written; tied to mpf/core/delays.py and mpf/core/clock.py by correspondence on every run",
+    "modelled, not verified: asyncio timer heap / TimeTravelLoop (made monotonic by the harness; a due live handle runs before the "
+    "loop sleeps past it; same-instant order taken from the implementation and validated by the model), functools.partial, dict "
+    "insertion order, uuid4 freshness",
+    "translate/py2effd.py + Model/PyEffD.lean (Python subset with one dict attribute, try/except, raising effects) and "
+    "Model/DelayGen.lean applyEff; Model/Delay.lean's DelayManager commands are PROVED equal to the translated delays.py "
+    "(delay_ops_refine_source), PeriodicTask (clock.py) is hand-written; both tied by correspondence on every run",
     "Model/TimerDevice.lean is hand-written; tied to mpf/devices/timer.py by correspondence on every run (and an independent "
-    "Python reference trace); Mode.stop(): executable oracle on the real code only (no theorem)",
+    "Python reference trace); Mode.stop() and stalled-loop timer cases: executable oracle on the real code only (no theorem)",
 ]
-ASSUMPTIONS = ["delays and intervals are non-negative multiples of 125 ms; periodic interval > 0",
-               "timer: the (clipped) start value is not itself at/past the end value (otherwise restart_on_complete recurses for ever "
-               "in the real code; the model answers `diverge`); tick-interval changes by integer factors",
+ASSUMPTIONS = ["delays and intervals are multiples of 125 ms (any sign; float ms only whole ticks); ms is an int or a float (not NaN)",
+               "a callback's exception that reaches the event loop stops the machine (MpfTestCase scaffolding and mpf's own handler): "
+               "the case ends at that instant",
+               "timer: with restart_on_complete the (clipped) start value is not itself at/past the end value (otherwise the real code "
+               "recurses for ever; the model answers `diverge`); tick-interval changes by integer factors",
                "timer operations arrive as control events with template values, value-less actions (start/stop/reset/restart) "
                "listed before value actions: outside C13's statement but wrong in the code - a value-less action listed after a "
                "value action inherits its timer_value and reset/restart crash (repair on branch verif-C13C03b, then run with "
                "VERIF_C13_CE_SHUFFLE=1); a direct Timer.pause(<number>) takes the number as ms although documented as seconds",
-               "callbacks do not raise; callback programs are cut after 48 commands per loop callback (model and harness alike)"]
+               "callback programs are cut after 48 commands per loop callback (model and harness alike)"]
 
 TICK = 0.125
 FUEL = 48
@@ -72,22 +88,44 @@ def first_of(ctx, sig):
 
 # ---------------------------------------------------------------------------------------------------- generator
 
-def gen_cmd(r, in_prog, anon):
+class CbError(Exception):
+    """what a generated callback raises with `raise 1` (anything that is not a KeyError)"""
+
+
+def gen_cmd(r, in_prog, anon, own=None, opts=None):
+    """own: index of the callback whose program is being generated (None at top level)"""
+    opts = opts or {}
     k = r.random()
     name = r.choice([0, 0, 1, 1, 2, 3])
-    # a zero delay re-added from its own callback would spin the loop for ever at one instant (real code and model)
-    ms = r.choice([1, 1, 2, 2, 3, 4]) if in_prog else r.choice([0, 1, 1, 2, 2, 3, 4, 8])
+    if own is not None and r.random() < 0.35:
+        name = own          # a callback that removes / re-adds / runs its own name (callbacks are mostly added under their index)
     cb = r.randrange(4)
+    if not in_prog and r.random() < 0.5:
+        cb = name
+    # a zero or negative delay re-added from its own callback would spin the loop for ever at one instant (real code and
+    # model): inside a program they are only used with a callback of strictly lower index, so every such chain ends
+    ms = r.choice([1, 1, 2, 2, 3, 4]) if in_prog else r.choice([0, 0, -1, -2, 1, 1, 2, 2, 3, 4, 8])
+    if in_prog and own is not None and own > 0 and r.random() < 0.2:
+        ms, cb = r.choice([0, 0, -1, -3]), r.randrange(own)
+    flt = [1] if r.random() < 0.15 else []      # sixth element: pass `ms` as a float (same instant: the grid stays exact)
     arg = r.choice([0, 1, -1, 7, -13, r.randint(-99, 99)])
+    if in_prog or r.random() < 0.5:
+        x = r.random()
+        if x < 0.07:
+            return ["block", r.choice([1, 1, 2, 3, 5])]
+        if own is not None and x < 0.12:
+            return ["raise", r.choice([0, 0, 1])]
+        if own is not None and x < 0.16 and opts.get("prestart", True):
+            return ["prestart", r.randrange(3), r.choice([1, 2, 2, 3]), r.randrange(4)]
     if k < 0.30:
         if not in_prog and r.random() < 0.12:
             anon[0] += 1
             name = 100 + anon[0]
-        return ["add", ms, name, cb, arg]
+        return ["add", ms, name, cb, arg] + flt
     if k < 0.40:
-        return ["addif", ms, name, cb, arg]
+        return ["addif", ms, name, cb, arg] + flt
     if k < 0.55:
-        return ["reset", ms, name, cb, arg]
+        return ["reset", ms, name, cb, arg] + flt
     if k < 0.68:
         return ["rm", r.choice([name, name, 100 + anon[0]]) if anon[0] else name]
     if k < 0.72:
@@ -102,15 +140,29 @@ def gen_cmd(r, in_prog, anon):
 def gen_delay_case(r, kind):
     anon = [0]
     progs = {}
+    # an interval-0 periodic task runs in every loop iteration until it is cancelled: it is the first task of the case
+    # (pid 0) and its callback's program starts by cancelling pid 0; pids must then be static: no prestart in programs
+    zero_iv = kind != "mode" and r.random() < 0.12
+    zero_cb = r.randrange(1, 4)
+    opts = {"prestart": not zero_iv}
     for k in range(4):
         n = r.choice([0, 0, 1, 1, 2, 3]) if k else r.choice([0, 0, 0, 1])
         prog = []
         for _ in range(n):
-            c = gen_cmd(r, True, anon)
+            c = gen_cmd(r, True, anon, own=k, opts=opts)
             if r.random() < 0.15:
                 c = ["pcancel", r.randrange(2)]
             prog.append(c)
+        if zero_iv and k == zero_cb:
+            prog = [["pcancel", 0]] + prog[:2]
         progs[str(k)] = prog
+    if any(c[0] == "runnow" for prog in progs.values() for c in prog):
+        # run_now calls callbacks of any index synchronously: with it a chain of zero delays need not end (the loop would
+        # spin at one instant for ever, in the real code and in the model): zero/negative delays from programs only without it
+        for prog in progs.values():
+            for c in prog:
+                if c[0] in ("add", "addif", "reset") and c[1] <= 0:
+                    c[1] = 1
     ops = []
     npers = 0
     stopped = False
@@ -120,7 +172,10 @@ def gen_delay_case(r, kind):
             ops.append(["adv", r.choice([0, 1, 1, 1, 2, 3, 5])])
         elif k < 0.42 and npers < 2 and kind != "mode":
             npers += 1
-            ops.append(["cmd", ["pstart", r.choice([1, 2, 2, 3]), r.randrange(4)]])
+            if zero_iv and npers == 1:
+                ops.append(["cmd", ["pstart", 0, zero_cb]])
+            else:
+                ops.append(["cmd", ["pstart", r.choice([1, 2, 2, 3]), r.randrange(4)]])
         elif kind == "mode" and not stopped and k < 0.47 and len(ops) > 3:
             stopped = True
             ops.append(["mstop", [gen_cmd(r, True, anon) for _ in range(r.choice([0, 1, 1, 2]))]])
@@ -136,6 +191,24 @@ def gen_delay_case(r, kind):
 
 
 # ---------------------------------------------------------------------------------------------------- real code
+
+def make_monotonic(loop):
+    """The repo's TimeTravelLoop sets the clock to the closest timer even when that lies in the past (a negative delay, or
+    a callback that took time), i.e. time would run backwards.  A real loop's clock is monotonic and runs such a timer in its
+    next iteration: give the test loop that behaviour (same patch as the seeded-change demo uses)."""
+    from mpf.tests.loop import NextTimers
+
+    class MonoTimers(NextTimers):
+        __slots__ = ["loop"]
+
+        def pop_closest(self):
+            return max(super().pop_closest(), self.loop._time)
+
+    old = loop._timers
+    new = MonoTimers()
+    new._timers_set, new._timers_heap, new.loop = old._timers_set, old._timers_heap, loop
+    loop._timers = new
+
 
 class DelayRun:
     """Runs one case on a real machine.  Produces `groups` (one per top-level call or loop callback, with the
@@ -157,6 +230,11 @@ class DelayRun:
         self.vm = None
         self.finished = False
         self.calls = 0
+        self.unwinding = False
+        self.dead = False
+        self.rcalls = 0
+        self.loop_escaped = False
+        self.neg = {}
 
     # time ----------------------------------------------------------------------------------------------
     def tick(self):
@@ -184,12 +262,17 @@ class DelayRun:
             self.watchdog()
             how = "R" if self.sync else "F"
             self.sync = False
+            if how == "R":
+                self.rcalls += 1
             tag, arg, t = kw.get("tag"), kw.get("arg"), self.tick()
             if how == "F":
                 self.group(["fire", tag])
             self.log.append(("call", how, k, tag, arg, t))
             self.obs("%s %s %s %s %s" % (how, tag, k, arg, t))
-            self.run_prog(k)
+            if how == "F":
+                self.run_prog_from_loop(k)
+            else:
+                self.run_prog(k)
         cb.__name__ = "cb%d" % k
         return cb
 
@@ -209,11 +292,35 @@ class DelayRun:
         self.group(["pfire", pid])
         self.log.append(("tick", pid, self.task_n[pid], t))
         self.obs("T %s %s %s" % (pid, self.task_n[pid], t))
-        self.run_prog(self.task_cb[pid])
+        self.run_prog_from_loop(self.task_cb[pid])
+
+    def run_prog_from_loop(self, k):
+        """the program of a callback the loop called: an exception that leaves it reaches the loop (the loop goes on with
+        the other handles of this iteration, then the machine stops)"""
+        g = self.cur
+        try:
+            self.run_prog(k)
+        except (CbError, KeyError) as e:
+            if e.args == ("c13",):
+                self.unwinding = False
+                g["obs"].append("U")
+                self.log.append(("escaped", g["head"][0], self.tick()))
+                self.loop_escaped = True
+            raise
 
     def run_prog(self, k):
         for c in self.progs.get(k, []):
             self.do_cmd(c)
+
+    def marker(self):
+        """the model's `endTry` marker at the end of a run_now whose callback returned: one step of the budget"""
+        if self.exhausted:
+            return
+        if self.steps >= FUEL:
+            self.exhausted = True
+            self.obs("X")
+            return
+        self.steps += 1
 
     def do_cmd(self, c):
         if self.exhausted:
@@ -225,19 +332,46 @@ class DelayRun:
         self.steps += 1
         dm, t = self.dm, self.tick()
         op = c[0]
-        if op in ("add", "addif", "reset"):
-            _, ms, name, cb, arg = c
+        if op == "block":
+            # the running callback (or an unrelated one) takes time: the clock advances, the loop does not run
+            self.vm.tc.loop.advance_time(c[1] * TICK)
+            self.log.append(("block", t, self.tick()))
+            self.obs("B %d" % c[1])
+        elif op == "raise":
+            self.obs("E %d" % c[1])
+            self.log.append(("raise", c[1], t))
+            self.unwinding = c[1] == 0
+            raise (KeyError("c13") if c[1] == 0 else CbError("c13"))
+        elif op == "prestart":
+            _, pid, iv, cb = c
+            if pid < len(self.tasks) and not self.tasks[pid]._canceled:
+                self.log.append(("pcancel", pid, t))
+                self.vm.machine.clock.unschedule(self.tasks[pid])
+                new = len(self.tasks)
+                self.task_n.append(0)
+                self.task_cb.append(cb)
+                self.log.append(("pstart", new, iv, t))
+                self.tasks.append(self.vm.machine.clock.schedule_interval(partial(self.ptick, new), iv * TICK))
+        elif op in ("add", "addif", "reset"):
+            _, ms, name, cb, arg = c[:5]
             self.log.append(("issue", c, t))
             f = self.cbs[cb]
+            msv = float(ms * 125) if len(c) > 5 else ms * 125
             if op == "add":
                 if name >= 100 and name not in self.names:
-                    self.names[name] = dm.add(ms * 125, f, tag=name, arg=arg)
+                    self.names[name] = dm.add(msv, f, tag=name, arg=arg)
                 else:
-                    dm.add(ms * 125, f, self.nm(name), tag=name, arg=arg)
+                    dm.add(msv, f, self.nm(name), tag=name, arg=arg)
             elif op == "addif":
-                dm.add_if_doesnt_exist(ms * 125, f, self.nm(name), tag=name, arg=arg)
+                dm.add_if_doesnt_exist(msv, f, self.nm(name), tag=name, arg=arg)
             else:
-                dm.reset(ms * 125, f, self.nm(name), tag=name, arg=arg)
+                dm.reset(msv, f, self.nm(name), tag=name, arg=arg)
+            if ms < 0:
+                # `call_later` with a negative delay: the handle's `when` lies in the past, the loop runs it in its next
+                # iteration, i.e. it is due now (what the model and the oracle say); remember that for the pending line
+                d = dm.delays.get(self.nm(name))
+                if d is not None and d[0].when() < self.vm.now() and id(d[0]) not in self.neg:
+                    self.neg[id(d[0])] = (d[0], t)
         elif op == "rm":
             self.log.append(("issue", c, t))
             dm.remove(self.nm(c[1]))
@@ -247,10 +381,18 @@ class DelayRun:
         elif op == "runnow":
             self.log.append(("issue", c, t))
             self.sync = True
+            before = self.rcalls
             try:
                 dm.run_now(self.nm(c[1]))
             finally:
                 self.sync = False
+            # returned normally: the callback returned (the model runs its endTry marker), or a KeyError raised somewhere
+            # below was swallowed by this run_now (the model has dropped the agenda up to and including the marker)
+            if self.unwinding:
+                self.unwinding = False
+                self.log.append(("swallowed", c, t))
+            elif self.rcalls != before:
+                self.marker()
             self.log.append(("returned", c, t))
         elif op == "check":
             res = dm.check(self.nm(c[1]))
@@ -303,11 +445,12 @@ class DelayRun:
                 self.dm = m.delay
             else:
                 self.dm = DelayManager(m)
+            make_monotonic(vm.tc.loop)
             vm.align()
             self.t0 = vm.now()
             self.mode_stopped_at = None
             for op in self.case["ops"]:
-                if self.crash:
+                if self.crash or self.dead:
                     break
                 try:
                     if op[0] == "cmd":
@@ -323,12 +466,26 @@ class DelayRun:
                         raise InfraError("unknown op %r" % (op,))
                 except InfraError:
                     raise
+                except (CbError, KeyError) as e:
+                    if e.args != ("c13",):
+                        self.crash = "%s: %s" % (type(e).__name__, e)
+                        self.group(["crash"])
+                        self.obs("crash " + type(e).__name__)
+                        continue
+                    # a generated callback raised and nothing caught it: it reached the caller (a top-level call of the
+                    # harness: the case goes on) or the event loop (the machine stops: the case ends here)
+                    self.unwinding = False
+                    if self.loop_escaped:
+                        self.dead = True
+                    else:
+                        self.obs("U")
+                        self.log.append(("escaped", self.cur["head"][0], self.tick()))
                 except Exception as e:       # an exception escaping the real code is an observation
                     self.crash = "%s: %s" % (type(e).__name__, e)
                     self.group(["crash"])
                     self.obs("crash " + type(e).__name__)
             self.end = self.tick()
-            self.pending = self.pending_line()
+            self.pending = None if self.dead else self.pending_line()
         finally:
             self.finished = True
             if shared_vm is None:
@@ -362,6 +519,8 @@ class DelayRun:
             tag = [k for k, v in self.names.items() if v == name]
             n = tag[0] if tag else (int(name[1:]) if name[:1] == "n" and name[1:].isdigit() else name)
             due = (d[0].when() - self.t0) / TICK
+            if id(d[0]) in self.neg:
+                due = self.neg[id(d[0])][1]
             a.append("%s@%s" % (n, int(due) if due == int(due) else due))
         b = []
         for pid, task in enumerate(self.tasks):
@@ -377,7 +536,7 @@ def model_lines(run):
     out = [("new", "ok")]
     for k, prog in sorted(run.progs.items()):
         if prog:
-            out.append(("prog %d %s" % (k, " ; ".join(" ".join(map(str, c)) for c in prog)), "ok"))
+            out.append(("prog %d %s" % (k, " ; ".join(" ".join(map(str, c[:5])) for c in prog)), "ok"))
     now = 0
     for g in run.groups:
         h = g["head"]
@@ -385,8 +544,9 @@ def model_lines(run):
             out.append(("to %s" % g["t"], "ok"))
             now = g["t"]
         exp = " ".join(g["obs"]) or "ok"
+        now += sum(int(x[2:]) for x in g["obs"] if x.startswith("B "))      # callbacks that blocked: the clock moved
         if h[0] == "cmd":
-            out.append(("cmd " + " ".join(map(str, h[1])), exp))
+            out.append(("cmd " + " ".join(map(str, h[1][:5])), exp))
         elif h[0] == "fire":
             out.append(("fire %s" % h[1], exp))
         elif h[0] == "pfire":
@@ -395,7 +555,8 @@ def model_lines(run):
             out.append(("crash", exp))
         elif h[0] == "to":
             pass
-    out.append(("pending", run.pending))
+    if run.pending is not None:
+        out.append(("pending", run.pending))
     return out
 
 
@@ -411,13 +572,23 @@ def oracle(run):
     if run.crash:
         return "crash", {"error": run.crash}
 
+    blocks = [(e[1], e[2]) for e in log if e[0] == "block"]
+
+    def late_ok(due, t):
+        """a callback due at `due` may run (or still be pending) at t > due only if the loop could not run in between:
+        the whole of (due, t] lies inside intervals during which some callback blocked the loop"""
+        if t <= due:
+            return True
+        covered = sum(max(0, min(b, t) - max(a, due)) for a, b in blocks)
+        return covered >= t - due
+
     def overdue(t, strict):
         for n, (due, cb, arg) in pending.items():
-            if due < t or (not strict and due <= t):
+            if (due < t or (not strict and due <= t)) and not late_ok(due, t):
                 return "delay-missed", {"name": n, "due": due, "now": t}
         for pid, (iv, t0, n, canc) in pers.items():
             nxt = t0 + (n + 1) * iv
-            if not canc and (nxt < t or (not strict and nxt <= t)):
+            if not canc and (nxt < t or (not strict and nxt <= t)) and not late_ok(nxt, t):
                 return "periodic-missed-tick", {"pid": pid, "due": nxt, "now": t}
         return None
 
@@ -434,7 +605,7 @@ def oracle(run):
                 return bad
             op = c[0]
             if op in ("add", "reset") or (op == "addif" and c[2] not in pending):
-                pending[c[2]] = (t + c[1], c[3], c[4])
+                pending[c[2]] = (t + max(c[1], 0), c[3], c[4])      # a negative delay is due at once
             elif op == "rm":
                 pending.pop(c[1], None)
             elif op == "clear":
@@ -465,7 +636,9 @@ def oracle(run):
                 if tag not in pending:
                     return "delay-fired-not-pending", {"cb": cb, "name": tag, "arg": arg, "t": t}
                 due, ecb, earg = pending.pop(tag)
-                if due != t:
+                if t < due or not late_ok(due, t):
+                    # early, or late although the loop was free to run it (a late delivery of ANOTHER callback must not
+                    # shift this one)
                     return "delay-wrong-time", {"name": tag, "due": due, "t": t}
                 if (ecb, earg) != (cb, arg):
                     return "delay-wrong-args", {"name": tag, "expected": [ecb, earg], "got": [cb, arg]}
@@ -483,25 +656,30 @@ def oracle(run):
             iv, t0, k, canc = pers[pid]
             if canc:
                 return "periodic-tick-after-cancel", {"pid": pid, "t": t}
-            if n != k + 1 or t != t0 + n * iv:
-                return "periodic-drift", {"pid": pid, "n": n, "t": t, "expected": t0 + (k + 1) * iv}
+            exp_t = t0 + n * iv
+            if n != k + 1 or t < exp_t or not late_ok(exp_t, t):
+                # the n-th tick is never before t0 + n*interval and is late only while the loop was blocked: lateness of one
+                # tick is not carried into the next, ticks missed during a stall are delivered back to back
+                return "periodic-drift", {"pid": pid, "n": n, "t": t, "expected": exp_t}
             pers[pid][2] = n
-        elif kind == "adv":
+        elif kind in ("adv", "block", "raise", "swallowed", "escaped"):
             pass
         elif kind == "mode-stopped":
             stopped = True
             pending.clear()
-    return final_overdue(run, pending, pers)
+    return final_overdue(run, pending, pers, late_ok)
 
 
-def final_overdue(run, pending, pers):
+def final_overdue(run, pending, pers, late_ok):
     """at the end of the case (the last op is an advance) nothing may be left that was due strictly before the end"""
     t = run.end
+    if run.dead:         # a callback's exception reached the loop: the machine has stopped at that instant
+        return None
     for n, (due, cb, arg) in pending.items():
-        if due < t:
+        if due < t and not late_ok(due, t):
             return "delay-missed", {"name": n, "due": due, "end": t}
     for pid, (iv, t0, n, canc) in pers.items():
-        if not canc and t0 + (n + 1) * iv < t:
+        if not canc and t0 + (n + 1) * iv < t and not late_ok(t0 + (n + 1) * iv, t):
             return "periodic-missed-tick", {"pid": pid, "due": t0 + (n + 1) * iv, "end": t}
     return None
 
@@ -523,8 +701,18 @@ def check_case(ctx, case, model, shrink=True, shared_vm=None, sample=True):
             ctx.count("cmd_" + e[1][0])
         elif e[0] == "call":
             ctx.count("call_" + e[1])
-        elif e[0] in ("tick", "check", "pstart", "pcancel"):
+        elif e[0] in ("tick", "check", "pstart", "pcancel", "block", "swallowed", "escaped"):
             ctx.count(e[0])
+        elif e[0] == "raise":
+            ctx.count("raise_%d" % e[1])
+        if e[0] == "issue" and e[1][0] in ("add", "addif", "reset"):
+            ctx.count("ms_negative" if e[1][1] < 0 else "ms_zero" if e[1][1] == 0 else "ms_positive")
+            if len(e[1]) > 5:
+                ctx.count("ms_float")
+        if e[0] == "pstart" and e[2] == 0:
+            ctx.count("pstart_interval_0")
+        if e[0] == "call" and e[5] > 0 and any(a < e[5] <= b for a, b in [(x[1], x[2]) for x in run.log if x[0] == "block"]):
+            ctx.count("call_at_end_of_a_block")
     if any("X" in g["obs"] for g in run.groups):
         ctx.count("budget_exhausted")
     bad = oracle(run)
@@ -574,7 +762,7 @@ timers:
 TIMER_ACTIONS = ([(a, None) for a in ("start", "stop", "reset", "restart")] + [("pause", v) for v in (0, 2, 3, 5)] +
                  [("add", v) for v in (1, 2, 4)] + [("subtract", v) for v in (1, 2, 4)] +
                  [("jump", v) for v in (0, 1, 2, 4, 7)] + [("set_tick_interval", v) for v in (1, 2, 3)] +
-                 [("change_tick_interval", 2)])
+                 [("change_tick_interval", 2), ("change_tick_interval", 3)])
 
 
 def timer_event(action, value):
@@ -602,6 +790,12 @@ def gen_timer_case(r):
         end = r.choice([None, 0, 1])
     cfg = {"start": start, "end": end, "direction": direction, "iv": r.choice([1, 1, 2, 3]),
            "max": r.choice([None, None, 6, 9]), "roc": r.random() < 0.25, "sr": r.random() < 0.4}
+    if r.random() < 0.08:
+        # the start value already at / past the end value (direction down with start < end, up with start >= end): the timer
+        # completes the moment it is started; with restart_on_complete the real code recurses for ever (see ASSUMPTIONS)
+        cfg["end"] = start + r.choice([0, 1, 3]) if direction == "down" else start - r.choice([0, 1])
+        cfg["roc"] = False
+    stall = r.random() < 0.25
     ops = []
     for _ in range(r.randint(5, 25)):
         k = r.random()
@@ -623,10 +817,15 @@ def gen_timer_case(r):
             ops.append(["reset"])
         elif k < 0.97:
             ops.append(["restart"])
-        elif k < 0.99:
+        elif k < 0.985:
             ops.append(["set_tick_interval", r.choice([1, 2, 3])])
         else:
-            ops.append(["change_tick_interval", 2])
+            ops.append(["change_tick_interval", r.choice([2, 2, 3])])
+        if stall and r.random() < 0.15:
+            # something unrelated blocks the loop: the clock moves on, nothing runs (ticks will be delivered late)
+            # (followed by an advance: all late deliveries happen there, not in the middle of the next control event)
+            ops.append(["stall", r.choice([1, 1, 2, 3, 5])])
+            ops.append(["adv", r.choice([1, 1, 2])])
     ops.append(["adv", r.choice([2, 5, 9])])
     case = {"kind": "timer", "cfg": cfg, "ops": ops}
     if os.environ.get("VERIF_C13_CE_SHUFFLE") == "1":
@@ -717,6 +916,7 @@ class TimerRun:
         try:
             vm = self.vm
             m = vm.machine
+            make_monotonic(vm.tc.loop)
             vm.align()
             self.t0 = vm.now()
             for ev in self.EVENTS:
@@ -731,6 +931,10 @@ class TimerRun:
             self.snap()
             for op in self.case["ops"]:
                 try:
+                    if op[0] == "stall":
+                        self.log.append(("stall", self.tick(), self.tick() + op[1]))
+                        vm.tc.loop.advance_time(op[1] * TICK)
+                        continue
                     if op[0] == "adv":
                         self.log.append(("adv", self.tick(), self.tick() + op[1]))
                         self.in_adv = True
@@ -859,6 +1063,9 @@ def timer_clock_oracle(run):
         check_done(t, depth)
 
     def advance(t_from, t_to):
+        """t_from is the instant at which the loop starts running again: whatever was scheduled before it (the loop was
+        stalled) is delivered at t_from, in the order of its schedule; the periodic task stays on its absolute schedule
+        (`arm` = the instant the tick was due, not the instant it ran), a resumed timer starts a new schedule now"""
         while True:
             nxt = []
             if st["arm"] is not None:
@@ -868,9 +1075,10 @@ def timer_clock_oracle(run):
             nxt = [x for x in nxt if x[0] <= t_to]
             if not nxt:
                 return None
-            if len(nxt) == 2 and nxt[0][0] == nxt[1][0]:
+            if len(nxt) == 2 and max(nxt[0][0], t_from) == max(nxt[1][0], t_from):
                 return "tie"
-            t, what = min(nxt)
+            ts, what = min(nxt)
+            t = max(ts, t_from)
             if what == 0:
                 st["resume"] = None
                 start(t)
@@ -878,7 +1086,7 @@ def timer_clock_oracle(run):
                 if not st["running"]:
                     st["arm"] = None      # _timer_tick removes the system timer when not running
                     continue
-                st["arm"] = t
+                st["arm"] = ts
                 st["ticks"] += 1 if up else -1
                 tick_events(t)
 
@@ -886,6 +1094,7 @@ def timer_clock_oracle(run):
         start(0)
     got = []
     tie = False
+    stalled = False
     for ev in run.log:
         if ev[0] == "op" and ev[1][0] != "mode_start":
             o, t = ev[1], ev[2]
@@ -926,6 +1135,8 @@ def timer_clock_oracle(run):
             elif o[0] == "change_tick_interval":
                 st["iv"] *= o[1]
                 st["arm"] = t
+        elif ev[0] == "stall":
+            stalled = True
         elif ev[0] == "adv":
             if advance(ev[1], ev[2]) == "tie":
                 tie = True
@@ -1023,7 +1234,9 @@ def check_timer_case(ctx, case, shrink=True, model=None):
             else:
                 small = case
         ctx.fail(sig, small, detail)
-    if model is not None and not run.crash:
+    if any(o[0] == "stall" for o in case["ops"]):
+        ctx.count("timer_cases_with_stall")          # late deliveries: reference trace only (Model/TimerDevice.lean has none)
+    elif model is not None and not run.crash:
         lines = timer_model_lines(run)
         got = [model.ask(l) for l, _ in lines]
         ctx.compare(dict(case, what="timer device trace", sent=[l for l, _ in lines]), [e for _, e in lines], got)
@@ -1046,6 +1259,24 @@ CORPUS = [
     # periodic: cancel from its own callback, from a delay, absolute schedule
     {"kind": "fresh", "progs": {"0": [], "1": [["pcancel", 0]], "2": [["add", 1, 0, 1, 0]], "3": []},
      "ops": [["cmd", ["pstart", 2, 2]], ["cmd", ["pstart", 3, 0]], ["adv", 7], ["cmd", ["pcancel", 1]], ["adv", 7]]},
+    # a callback that raises: KeyError inside run_now is swallowed (the rest of that callback is skipped, the caller's program
+    # goes on), anything else reaches the top-level caller; the entry is gone in both cases; then a KeyError in a callback
+    # the loop fired reaches the loop (the case ends there)
+    {"kind": "fresh", "progs": {"0": [], "1": [["raise", 0], ["add", 1, 3, 0, 1]], "2": [["raise", 1], ["add", 1, 3, 0, 2]],
+                                "3": [["runnow", 1], ["check", 1], ["add", 2, 1, 1, 5]]},
+     "ops": [["cmd", ["add", 4, 1, 1, 1]], ["cmd", ["add", 4, 2, 2, 2]], ["cmd", ["add", 1, 0, 3, 3]], ["adv", 1],
+             ["cmd", ["check", 1]], ["cmd", ["runnow", 2]], ["cmd", ["check", 2]], ["cmd", ["check", 3]], ["adv", 3], ["adv", 2]]},
+    # late deliveries: a callback blocks the loop for 3 intervals of a periodic task and past the due time of two delays: the
+    # missed ticks come back to back at the end of the block, the following ticks are on the original schedule, the delays fire
+    # late but the one added afterwards is not shifted
+    {"kind": "fresh", "progs": {"0": [], "1": [["block", 3], ["add", 2, 3, 0, 9]], "2": [], "3": []},
+     "ops": [["cmd", ["pstart", 1, 0]], ["cmd", ["add", 2, 0, 1, 1]], ["cmd", ["add", 3, 1, 2, 2]], ["cmd", ["add", 4, 2, 2, 3, 1]],
+             ["adv", 2], ["adv", 4], ["cmd", ["block", 2]], ["adv", 3]]},
+    # negative and zero delays (due at once, in the next loop iteration), `ms` as a float; an interval-0 task that cancels itself;
+    # a tick that replaces its own task (rescheduling inside the tick)
+    {"kind": "fresh", "progs": {"0": [], "1": [["pcancel", 0], ["add", -3, 2, 0, 4]], "2": [["prestart", 1, 1, 0]], "3": []},
+     "ops": [["cmd", ["pstart", 0, 1]], ["cmd", ["add", -2, 0, 0, 1]], ["cmd", ["add", 0, 1, 0, 2, 1]], ["adv", 0],
+             ["cmd", ["pstart", 2, 2]], ["adv", 5], ["cmd", ["add", -1, 0, 3, 3]], ["cmd", ["check", 0]], ["adv", 1]]},
     # D12: a delay added on the mode's manager while the mode is stopping
     {"kind": "mode", "progs": {"0": [], "1": [], "2": [], "3": []},
      "ops": [["cmd", ["add", 4, 0, 1, 1]], ["adv", 1], ["mstop", [["add", 2, 1, 2, 5]]], ["adv", 5]]},
